@@ -50,10 +50,17 @@ Definition as_sgr (v : val) : sgr :=
   mkSgr (dec_colour (as_int (arg v 0))) (dec_colour (as_int (arg v 1))) (dec_attrs (as_int (arg v 2))).
 Definition v_sgr (s : sgr) : val := VL [VI (enc_colour (s_fg s)); VI (enc_colour (s_bg s)); VI (enc_attrs (s_at s))].
 
+(* omitted or given number: [] / [n];  xsgr: [plain parameters; [] | [sub-parameters of the last one]] *)
+Definition as_optz (v : val) : option Z := match as_list v with [] => None | n :: _ => Some (as_int n) end.
+Definition as_xsgr (v : val) : xsgr :=
+  mkX (map as_optz (as_list (arg v 0)))
+      (match as_list (arg v 1) with [] => None | subs :: _ => Some (map as_optz (as_list subs)) end).
+
 Definition as_item (v : val) : item :=
   let t := as_int (arg v 0) in
   if t =? 0 then IText (as_str (arg v 1))
   else if t =? 1 then ISgr (as_str (arg v 1))
+  else if t =? 3 then ISgrX (as_xsgr (arg v 1))
   else IOther.
 
 Definition dispatch_ansi (op : Z) (a : val) : option val :=
@@ -66,4 +73,5 @@ Definition dispatch_ansi (op : Z) (a : val) : option val :=
   else if op =? 1107 then Some (VL [vnat (rune_len (as_str a)); vnat (last_rune_len (rev (as_str a))); vnat (rune_count (as_str a))])
   else if op =? 1108 then Some (vnat (kept_runes (as_str a)))
   else if op =? 1109 then Some (VL (map v_sgr (term_chars (map as_item (as_list (arg a 0))) (as_sgr (arg a 1)))))
+  else if op =? 1110 then Some (VL [v_sgr (sgr_xapply (as_xsgr (arg a 0)) (as_sgr (arg a 1))); vbool (sgr_xwf (as_xsgr (arg a 0)))])
   else None.
